@@ -95,8 +95,8 @@ def run():
     chk.build_and_audit()
     r = C.rng("C03")
     quick = C.tier() != "thorough"
-    specs = hazard_scenarios(r) + scenarios(r, 120 if quick else 1200)
-    stub = stub_scenarios(r, 40 if quick else 300)
+    specs = hazard_scenarios(r) + scenarios(r, C.T(120, 1200))
+    stub = stub_scenarios(r, C.T(40, 300))
     outs = scen.run_batch(specs + stub)
     dis, fails, keys, samples = [], [], set(), []
     for spec, o in outs:
